@@ -41,7 +41,7 @@ TInit == Init /\ tid \in 1..Len(Traces) /\ pos = 1
 \* the real system is never late: the same urgency rule as NextTimed
 TNext == /\ pos <= Len(Traces[tid].ev) /\ pos' = pos + 1 /\ tid' = tid
          /\ StepAction(Ev) /\ Obs(Ev)
-         /\ Clause("urgent", Urgent => Ev.a \in {"Attempt", "DialBegin", "Watchdog", "Stop"})
+         /\ Clause("urgent", Urgent => Ev.a \in {"Attempt", "DialBegin", "Watchdog", "Stop", "DialEnd"})
 TSpec == TInit /\ [][TNext]_tvars
 Track == TLCSet(tid, IF TLCGet(tid) < pos THEN pos ELSE TLCGet(tid))
 Rejected == {t \in 1..Len(Traces) : TLCGet(t) # Len(Traces[t].ev) + 1}
